@@ -146,6 +146,17 @@ def main(argv=None) -> int:
             return check(prop, tier)
         if cmd == "replay":
             return replay(argv[1])
+        if cmd == "rule":
+            load_rules()
+            from .report import RULES as _R
+            _R[argv[1]].floor = 0
+            model, flow, results = run_rules([argv[1]], "thorough")
+            for o in results[argv[1]].obs:
+                print(f"{'W ' if o.is_witness else '  '}{o.status:<18} {o.file}:{o.line} {o.where} [{o.construct}] {o.msg}")
+            print(len([o for o in results[argv[1]].obs if not o.is_witness]), "instances")
+            for a in results[argv[1]].assumptions + flow.assumptions:
+                print("assume:", a)
+            return 0
         if cmd == "list":
             load_rules()
             for p, s in PROPS.items():
